@@ -106,6 +106,8 @@ def gen_program(rng, profile="general", payload=None, cap="rand"):
         return gen_chain(rng, payload, cap, side="s")
     if profile == "progress":
         return gen_progress(rng)
+    if profile == "pair":
+        return gen_pair(rng)
     if profile == "discrace":
         return gen_discrace(rng)
     if profile == "waiters":
@@ -700,6 +702,84 @@ def gen_discrace(rng):
     else:
         procs.append({"phase": 0, "handles": [wside_h, other_h], "ops": b + [{"op": "close", "h": 0}]})
     st = {"spin_bias": 0.995, "p_switch": rng.choice([0.05, 0.2]), "q_tick": 0.0, "tick_phase": 9}
+    return {"cap": cap, "payload": rng.choice(["w1", "b3", "h4", "u8", "p5"]), "procs": procs, "strat": st}
+
+
+PAIR_OPS_S = [
+    [{"op": "send", "h": 0, "m": 0}], [{"op": "try_send", "h": 0, "m": 0}], [{"op": "try_send_option", "h": 0, "m": 0}],
+    [{"op": "try_send_realtime", "h": 0, "m": 0}], [{"op": "try_send_option_realtime", "h": 0, "m": 0}],
+    [{"op": "send_timeout", "h": 0, "m": 0, "d": 0}], [{"op": "send_timeout", "h": 0, "m": 0, "d": 400}],
+    [{"op": "send_option_timeout", "h": 0, "m": 0, "d": 400}],
+    [{"op": "asend_new", "h": 0, "f": 0, "m": 0}, {"op": "poll", "f": 0, "w": 1}, {"op": "poll", "f": 0, "w": 2}, {"op": "drop_fut", "f": 0}],
+    [{"op": "asend_new", "h": 0, "f": 0, "m": 0}, {"op": "poll", "f": 0, "w": 1}, {"op": "await", "f": 0, "w": 2}],
+    [{"op": "close", "h": 0}], [{"op": "drop", "h": 0}], [{"op": "clone", "h": 0}], [{"op": "clone_sync", "h": 0}], [{"op": "clone_async", "h": 0}],
+    [{"op": "len", "h": 0}], [{"op": "is_closed", "h": 0}], [{"op": "is_disconnected", "h": 0}], [{"op": "is_full", "h": 0}],
+]
+PAIR_OPS_R = [
+    [{"op": "recv", "h": 1}], [{"op": "try_recv", "h": 1}], [{"op": "try_recv_realtime", "h": 1}], [{"op": "iter_next", "h": 1}],
+    [{"op": "recv_timeout", "h": 1, "d": 0}], [{"op": "recv_timeout", "h": 1, "d": 400}],
+    [{"op": "drain_into", "h": 1, "pre": 0, "spare": 0}], [{"op": "drain_into", "h": 1, "pre": 1, "spare": 4}],
+    [{"op": "arecv_new", "h": 1, "f": 1}, {"op": "poll", "f": 1, "w": 1}, {"op": "poll", "f": 1, "w": 2}, {"op": "drop_fut", "f": 1}],
+    [{"op": "arecv_new", "h": 1, "f": 1}, {"op": "poll", "f": 1, "w": 1}, {"op": "await", "f": 1, "w": 2}],
+    [{"op": "stream_new", "h": 1, "f": 1}, {"op": "poll", "f": 1, "w": 1}, {"op": "poll", "f": 1, "w": 2}, {"op": "drop_fut", "f": 1}],
+    [{"op": "close", "h": 1}], [{"op": "drop", "h": 1}], [{"op": "clone", "h": 1}], [{"op": "clone_sync", "h": 1}], [{"op": "clone_async", "h": 1}],
+    [{"op": "len", "h": 1}], [{"op": "is_terminated", "h": 1}], [{"op": "is_disconnected", "h": 1}], [{"op": "is_empty", "h": 1}],
+    [{"op": "sender_count", "h": 1}], [{"op": "receiver_count", "h": 1}],
+]
+
+
+def gen_pair(rng):
+    """C03 (atomicity) base scenario for the one-preemption sweep: the channel is put into one of its qualitative states
+    by a set-up process (phase 0/1), then two processes each issue ONE call (any of the API, either side) in the same
+    phase, followed by observers.  Under the freeze sweep one of the two is frozen before its k-th hook for every k while
+    the other runs its call to the end: every cut point of every call meets every complete other call."""
+    cap = rng.choice([0, 1, 1, 2, None])
+    state = rng.choice(["empty", "empty", "part", "full", "rwait", "swait", "closed", "norecv_buf", "nosend_buf", "rwait2", "swait2"])
+    fs, fr = rng.choice(["ss", "as"]), rng.choice(["sr", "ar"])
+    nbuf = 0 if cap == 0 else (rng.choice([1, 2]) if cap is None else cap)
+    setup = []
+    if state in ("part", "norecv_buf", "nosend_buf") and nbuf:
+        setup += [{"op": "try_send", "h": 0, "m": 100 + i} for i in range(1 if state == "part" else nbuf)]
+    if state in ("full", "swait", "swait2") and cap is not None:
+        setup += [{"op": "try_send", "h": 0, "m": 100 + i} for i in range(cap)]
+    if state == "closed":
+        setup.append({"op": "close", "h": 0})
+    setup.append({"op": "barrier", "ph": 4})
+    procs = []
+    ops = PAIR_OPS_S + PAIR_OPS_R
+    m = [0]
+
+    def inst(o):
+        o = json.loads(json.dumps(o))
+        for x in o:
+            if "m" in x:
+                m[0] += 1
+                x["m"] = m[0]
+        return o
+    obs = [{"op": "len", "h": 0}, {"op": "try_recv", "h": 1}]
+    a, b = inst(rng.choice(ops)), inst(rng.choice(ops))
+    # a process whose last handle of a side is needed by a later op keeps it: ops on a dropped handle are skipped by the interpreter
+    procs.append({"phase": 0, "handles": [fs, fr], "ops": [{"op": "barrier", "ph": 3}] + a + obs})
+    procs.append({"phase": 0, "handles": [rng.choice(["ss", "as"]), rng.choice(["sr", "ar"])], "ops": [{"op": "barrier", "ph": 3}] + b + obs})
+    hs = [fs, fr]
+    if state == "norecv_buf":
+        # every receiver must go: the two actors' receive handles too
+        for pr in procs:
+            pr["ops"] = [{"op": "drop", "h": 1}] + pr["ops"]
+        setup = setup[:-1] + [{"op": "drop", "h": 1}, {"op": "barrier", "ph": 4}]
+    if state == "nosend_buf":
+        for pr in procs:
+            pr["ops"] = [{"op": "drop", "h": 0}] + pr["ops"]
+        setup = setup[:-1] + [{"op": "drop", "h": 0}, {"op": "barrier", "ph": 4}]
+    procs.append({"phase": 0, "handles": hs, "ops": setup})
+    nwait = 2 if state.endswith("2") else 1
+    if state.startswith("rwait") and state != "norecv_buf":
+        for i in range(nwait):
+            procs.append({"phase": 0, "handles": [fr], "ops": [{"op": "barrier", "ph": 1 + i}] + _waiter_ops(rng, "r", rng.choice(["sync", "timed", "async", "async2"]), 0)})
+    if state.startswith("swait") and cap is not None:
+        for i in range(nwait):
+            procs.append({"phase": 0, "handles": [fs], "ops": [{"op": "barrier", "ph": 1 + i}] + _waiter_ops(rng, "s", rng.choice(["sync", "timed", "async", "async2"]), 50 + i)})
+    st = {"spin_bias": 0.995, "p_switch": 0.1, "q_tick": 0.0, "tick_phase": 9}
     return {"cap": cap, "payload": rng.choice(["w1", "b3", "h4", "u8", "p5"]), "procs": procs, "strat": st}
 
 
